@@ -42,6 +42,13 @@ def eval_ext(toks, state):
         from localcider.backend.seqfileparser import SequenceFileParser
         text = real.unhex6(toks[1]) if len(toks) > 1 else ""
         return ("str", SequenceFileParser().parseSeqFile(write_file(state, text)))
+    if op == "parse2":
+        # one parser object reused for every parse2 line of the block (parsing must not depend on earlier files)
+        from localcider.backend.seqfileparser import SequenceFileParser
+        if "parser" not in state:
+            state["parser"] = SequenceFileParser()
+        text = real.unhex6(toks[1]) if len(toks) > 1 else ""
+        return ("str", state["parser"].parseSeqFile(write_file(state, text)))
     if op == "parseq":
         return real.query(SP(sequenceFile=write_file(state, real.unhex6(toks[1]))), toks[2], toks[3:])
     objs = state.setdefault("objs", {})
